@@ -130,6 +130,37 @@ def h_accuracy(ctx, n, r, signs, tiny_last=False):
         ctx.claim('nonnegative', ctx.ge(acc, 0))
 
 
+def h_accuracy_repeat(ctx, n):
+    """Two consecutive calls with the same reference list whose first core is
+    rescaled in place by 4 in between: both values are the true relative distances
+    (moderate magnitudes: no saturation)."""
+    Y1 = ctx.tt('a', n, 1)
+    Y2 = ctx.tt('b', n, 1)
+    for G in Y1 + Y2:
+        for x in G.reshape(-1):
+            ctx.assume(ctx.le(x, 8))
+            ctx.assume(ctx.ge(x, Fraction(1, 8)))
+    for rep in range(2):
+        acc = teneva.accuracy(Y1, Y2)
+        F1, F2 = ref_full(Y1), ref_full(Y2)
+        d2, n2 = sumsq(F1 - F2), sumsq(F2)
+        big = 2 ** 996
+        if is_sym(ctx):
+            c = acc.const_value() if hasattr(acc, 'const_value') else acc
+        else:
+            c = acc if acc in (1.E+299, 0., -1) else None
+        if c is not None and c == 0:
+            # documented saturation: the distance is negligible (relative 2^-498 and less)
+            ctx.claim(f'zero_only_if_negligible_call{rep}', ctx.le(d2, n2 / big))
+        elif c is not None and (c == -1 or c > 1e298):
+            # (not reachable for moderate tensors; the scale-variable abstraction cannot always
+            # exclude it, and the other saturation values are the subject of h_accuracy)
+            pass
+        else:
+            ctx.claim(f'true_relative_distance_call{rep}', ctx.all_([ctx.eq(acc * acc * n2, d2), ctx.ge(acc, 0)]))
+        Y2[0][...] = Y2[0] * 4                  # the caller edits its reference tensor in place
+
+
 def h_accuracy_dense(ctx, shape):
     A = ctx.array('a', tuple(shape))
     B = ctx.array('b', tuple(shape))
@@ -203,6 +234,23 @@ def h_concrete_small_norm(ctx):
         Fa, Fb, F = teneva.full(Za), teneva.full(Zb), teneva.full(Y)
         ok = ok and np.linalg.norm(Fa - F) <= 1e-8 * np.linalg.norm(F) and np.linalg.norm(Fa - Fb) <= 1e-8 * np.linalg.norm(F)
         ok = ok and all(np.all(np.isfinite(G)) for G in Za)
+    # a component only slightly above the accuracy, both decomposition modes, several scales:
+    # the stabilised rounding keeps it (same ranks and error budget as the plain one)
+    rng = np.random.default_rng(4)
+    e = 1e-3
+    for n, sc in [(16, 1.), (32, 2. ** 40), (16, 2. ** -30), (64, 1.)]:
+        A = [rng.normal(size=(1, n, 1)) for _ in range(3)]
+        B = [rng.normal(size=(1, n, 1)) for _ in range(3)]
+        na, nb = np.linalg.norm(teneva.full(A)), np.linalg.norm(teneva.full(B))
+        B[0] = B[0] * (3.5 * e * na / nb)
+        Y = teneva.add(A, B)
+        Y = [G * sc for G in Y]
+        F = teneva.full(Y)
+        for is_eigh in (True, False):
+            Zp = teneva.truncate(Y, e, is_eigh=is_eigh)
+            Zs = teneva.truncate(Y, e, is_eigh=is_eigh, use_stab=True)
+            ok = ok and teneva.ranks(Zs).tolist() == teneva.ranks(Zp).tolist()
+            ok = ok and np.linalg.norm(teneva.full(Zs) - F) <= e * np.linalg.norm(F) * (1 + 1e-9)
     ctx.claim('stabilised_rounding_equals_plain', bool(ok))
 
 
@@ -221,6 +269,7 @@ def instances(tier):
     for n, r, sg in ([([1, 1, 1], 1, False)] if quick else [([1, 1, 1], 1, False), ([1, 1], 1, True), ([2, 1], 1, False)]):
         out.append({'func': 'h_accuracy', 'params': {'n': n, 'r': r, 'signs': sg}})
     out.append({'func': 'h_accuracy', 'params': {'n': [1, 1], 'r': 1, 'signs': False, 'tiny_last': True}})
+    out.append({'func': 'h_accuracy_repeat', 'params': {'n': [1, 1]}})
     out.append({'func': 'h_accuracy_dense', 'params': {'shape': [2, 2]}})
     for d, n in ([(3, 2)] if quick else [(3, 2), (4, 2)]):
         for k in range(d):
